@@ -12,7 +12,7 @@ TECHNIQUE = ('fault enumeration over real processes: a forked child SIGKILLs its
 RULE = ('cases: scenario in {blocking acquire/release, timed acquire, with, acquire_ctx, reentrant nested depth 2 + re-acquire, '
         'acquire while another descriptor holds the lock (polling), holder that spawned a helper process while holding, every unsuccessful way out of acquire, and blocking/timed/nested use of an object inherited through fork() from a live supervisor process that had used it before} x crash index N = 1..M (M = number of line events of '
         'aiuti/filelock.py the scenario executes on the current tree, measured by a counting run) x 0-2 contender processes; '
-        'non-trivial: the child was killed while is_locked was true or inside _acquire/_release/acquire/release; '
+        'contenders keep going (timed / blocking / acquire_ctx rounds; the timed ones with their last poll sleep straddling the deadline) until the victim has been reaped, do three more rounds and then stay alive, idle, while a fresh FileLock probes the lock; non-trivial: the child was killed while is_locked was true or inside _acquire/_release/acquire/release; '
         'distinct by (scenario, N, contenders)')
 ASSUMPTIONS = ['Linux flock semantics (descriptors are closed by the kernel before the parent reaps the child)',
                'wall-clock is only a hang guard (15 s); the verdict comes from the deterministic non-blocking probe',
@@ -29,7 +29,10 @@ _state = {'hangs': 0}
 
 def _count(name):
     if name not in _counts:
-        _counts[name] = P.count_events(name)
+        try:
+            _counts[name] = P.count_events(name)
+        except P.ScenarioHang:
+            _counts[name] = -1
     return _counts[name]
 
 
@@ -37,6 +40,11 @@ def enumerate_cases(tier, shard=0, nshards=1):
     k = 0
     for name in P.SCENARIOS:
         m = _count(name)
+        if m < 0:
+            k += 1
+            if k % nshards == shard:
+                yield {'scenario': name, 'n': 1, 'contenders': 0, 'events_in_scenario': -1}
+            continue
         for nc in (0, 1, 2):
             step = (3 if nc == 1 else 4) if (tier == 'quick' and nc) else 1
             for n in range(1, m + 1, step):
@@ -54,11 +62,18 @@ def run_case(case):
         # two cases already ended in the 15 s hang guard in this worker: the finding is established,
         # do not spend a quarter of a minute on each remaining contended case
         return Result([], False, ['skipped-after-hangs'], {'case': case})
+    if case.get('events_in_scenario') == -1:
+        return Result([V('scenario-hangs', f"scenario {case['scenario']} run alone on a fresh lock file (no crash, no contender) does "
+                         f"not finish within {P.HANG_GUARD_S} s", 'scenario-hangs')], True, ['scenario=' + case['scenario']], None)
     r = P.crash_at(case['scenario'], case['n'], case['contenders'])
     if r['survivor_hung']:
         _state['hangs'] += 1
     viol = []
     desc = f"scenario {case['scenario']} killed at line event {case['n']} ({r['info']})"
+    if r.get('supervisor_hung'):
+        return Result([V('scenario-hangs', f"scenario {case['scenario']}: the supervisor's ordinary earlier use of the lock object, or the "
+                         f"victim forked from it, did not finish within {P.HANG_GUARD_S} s", 'scenario-hangs')], True,
+                      ['scenario=' + case['scenario']], {'case': case})
     if not r['killed']:
         # the scenario finished before reaching event n (counting run and victim run differ): nothing to judge
         return Result([], False, ['not-killed'], {'case': case, 'result': r})
@@ -68,6 +83,9 @@ def run_case(case):
     if r['survivor_hung']:
         viol.append(V('survivor-hung', f"{desc}: a contender did not finish its rounds within the hang guard", 'survivor-hung'))
     surv = [s for s in r['survivors'] if s]
+    if any(s.get('inconsistent') for s in surv):
+        viol.append(V('survivor-inconsistent', f"{desc}: a survivor's acquire reported failure while its is_locked was true "
+                      f"({surv})", 'survivor-inconsistent'))
     if any(s['clashes'] for s in surv):
         viol.append(V('survivor-overlap', f"{desc}: survivors overlapped inside the protected section ({surv})", 'survivor-overlap'))
     if surv and r['counter'] != sum(s['done'] for s in surv):
@@ -90,7 +108,10 @@ def extra(tier, seed_, col):
     seen = set()
     per = {}
     for name in P.SCENARIOS:
-        n, lines = P.count_events(name, want_lines=True)
+        try:
+            n, lines = P.count_events(name, want_lines=True)
+        except P.ScenarioHang:
+            n, lines = -1, set()
         per[name] = n
         seen |= lines
     missing = sorted(want - seen)
